@@ -193,5 +193,31 @@ k("K93", "C05", "frame/convert.go", "c.DecodeBody(frame.Header, bytes.NewBuffer(
 k("K94", "C05", "frame/encode.go", "\tif header.Flags.Contains(primitive.HeaderFlagCustomPayload) {\n\t\tlength += primitive.LengthOfBytesMap(body.CustomPayload)", "\tif header.Flags.Contains(primitive.HeaderFlagCustomPayload) && len(body.CustomPayload) > 0 {\n\t\tlength += primitive.LengthOfBytesMap(body.CustomPayload)",
   "body-length:frame.body@", "empty custom payload not counted (seeded C05-A)")
 
+# ---- C06 / C07
+k("K36", "C06", "segment/encode.go", "\tif payloadLength > MaxPayloadLength {\n\t\treturn fmt.Errorf(\"paload length exceeds maximum allowed: %v > %v\", payloadLength, MaxPayloadLength)\n\t} else {", "\t{",
+  "refusal:EncodeSegment", "max payload test deleted")
+k("K37", "C06", "segment/decode.go", "\t\theader.CompressedPayloadLength = int32(headerData & MaxPayloadLength)\n\t\theaderData >>= 17", "\t\theader.CompressedPayloadLength = int32(headerData & MaxPayloadLength)\n\t\theaderData >>= 16",
+  "reader-layout:", "second length read at the wrong shift")
+k("K95", "C06", "segment/encode.go", "\tconst flagOffset = 34\n", "\tconst flagOffset = 33\n",
+  "writer-layout:", "self-contained flag written at bit 33")
+k("K96", "C06", "segment/encode.go", "\tif c.compressor == nil {\n\t\t\treturn c.encodeSegmentUncompressed(segment, dest)", "\tif c.compressor == nil || payloadLength == 0 {\n\t\t\treturn c.encodeSegmentUncompressed(segment, dest)",
+  "trace:compressor=true", "empty payload takes the 3-byte header on a compressing codec (seeded C06-A)")
+k("K97", "C06", "segment/encode.go", "binary.Write(dest, binary.LittleEndian, payloadCrc)", "binary.Write(dest, binary.BigEndian, payloadCrc)",
+  "writer-layout:", "CRC-32 trailer big-endian")
+k("K98", "C06", "segment/encode.go", "\t\t\tsegment.Header.CompressedPayloadLength = segment.Header.UncompressedPayloadLength\n\t\t\tsegment.Header.UncompressedPayloadLength = 0", "\t\t\tsegment.Header.CompressedPayloadLength = 0",
+  "fallback:signalling", "fallback signalled through the other field")
+k("K38", "C07", "segment/decode.go", "\tif actualHeaderCrc != expectedHeaderCrc {\n\t\treturn nil, fmt.Errorf(\n\t\t\t\"crc mismatch on header %x: received %x, computed %x\",\n\t\t\theaderData,\n\t\t\texpectedHeaderCrc,\n\t\t\tactualHeaderCrc)\n\t}\n", "\tif actualHeaderCrc != expectedHeaderCrc {\n\t\t_ = fmt.Sprintf(\"crc mismatch on header %x\", headerData)\n\t}\n",
+  "crc-dominance:decodeSegmentHeader", "mismatch only logged")
+k("K39", "C07", "segment/decode.go", "\tif actualPayloadCrc != expectedPayloadCrc {", "\tif actualPayloadCrc&0xFFFFFF != expectedPayloadCrc&0xFFFFFF {",
+  "crc", "masked CRC-32 comparison")
+k("K40", "C07", "crc/crc24.go", "const crc24Init uint32 = 0x875060", "const crc24Init uint32 = 0x875061",
+  "crc-params:crc24Init", "wrong CRC-24 init")
+k("K99", "C07", "segment/decode.go", "\tactualHeaderCrc := crc.ChecksumKoopman(headerData, headerLength)", "\tactualHeaderCrc := crc.ChecksumKoopman(headerData&0x7FFFFFFFF, headerLength)",
+  "crc24:input", "padding bits excluded from the CRC-24 (seeded C07-A)")
+k("K100", "C07", "segment/decode.go", "\tencodedPayload := make([]byte, length)\n", "\tif length == 0 {\n\t\tvar skip uint32\n\t\tif err := binary.Read(source, binary.LittleEndian, &skip); err != nil {\n\t\t\treturn nil, err\n\t\t}\n\t\treturn &Payload{Crc32: crc.ChecksumIEEE(nil)}, nil\n\t}\n\tencodedPayload := make([]byte, length)\n",
+  "crc", "empty payload fast path skips the CRC-32 comparison (seeded C07-B)")
+k("K101", "C07", "segment/decode.go", "\tactualPayloadCrc := crc.ChecksumIEEE(encodedPayload)", "\tactualPayloadCrc := crc.ChecksumIEEE(encodedPayload[:len(encodedPayload)/2])",
+  "crc32:input", "CRC-32 over half the payload")
+
 json.dump(C, open(os.path.join(os.path.dirname(os.path.abspath(__file__)), "controls.json"), "w"), indent=1)
 print(len(C), "controls")
